@@ -105,6 +105,87 @@ def slice_clauses(selected, slices):
     return bad
 
 
+
+def _split_suite(s):
+    return tuple(s.split(':', 1)) if ':' in s else (s, '')
+
+
+def _suite_arg_matches(arg, full_suites):
+    """documented meaning of a --suite / --no-suite argument: `name` = (sub)project or suite of that name,
+    `:suite` = that suite in any project, `project:suite` = that suite of that project"""
+    pm, sm = _split_suite(arg)
+    for fs in full_suites:
+        prj, st = _split_suite(fs)
+        if not sm:
+            if pm in (prj, st):
+                return True
+        elif not pm:
+            if st == sm:
+                return True
+        elif prj == pm and st == sm:
+            return True
+    return False
+
+
+def independent_selection(tests, project_name, include, exclude_suites, exclude, args, slc):
+    """The selection computed from the command line alone (no meson code, no Coq model):
+    tests = [(name, project, [full suite strings])] in serialisation order.  A test is selected when it
+    survives --no-suite / --exclude / --suite and, if test-name arguments are given, when ANY of them
+    matches it (fnmatch on project and name) -- a set, every test at most once, in order.
+    Returns the list of (project, name), or None when meson must refuse (an argument matching no test,
+    more slices than tests)."""
+    from fnmatch import fnmatchcase
+    if not tests:
+        return []
+    sel = []
+    for name, prj, suites in tests:
+        if any(_suite_arg_matches(a, suites) for a in exclude_suites):
+            continue
+        if (prj == project_name and name in exclude) or ('%s:%s' % (prj, name)) in exclude:
+            continue
+        if include and not any(_suite_arg_matches(a, suites) for a in include):
+            continue
+        sel.append((prj, name))
+    if args:
+        pats = []
+        for a in args:
+            if ':' in a:
+                sp, nm = a.split(':', 1)
+                pats.append((sp or '*', nm or '*'))
+            else:
+                pats.append(('*', a))
+        for sp, nm in pats:
+            if not any(fnmatchcase(p, sp) and fnmatchcase(n, nm) for p, n in sel):
+                return None
+        sel = [(p, n) for p, n in sel if any(fnmatchcase(p, sp) and fnmatchcase(n, nm) for sp, nm in pats)]
+    if slc:
+        i, k = slc
+        if k > len(sel):
+            return None
+        sel = sel[i - 1::k]
+    return sel
+
+
+def start_count_clauses(selected, repeat, start_records, cut_short):
+    """selected: test names (a set, in order); start_records: [(name, iteration)] written by the test
+    programs themselves.  Every selected test has exactly `repeat` start records -- one per repetition --
+    (at most when the run is cut short); nothing else is started."""
+    from collections import Counter
+    bad = []
+    c = Counter(n for n, _ in start_records)
+    per_it = Counter(start_records)
+    for (n, it), k in sorted(per_it.items()):
+        if k > 1:
+            bad.append('test %s was started %d times in repetition %d' % (n, k, it))
+    for n in sorted(set(c) - set(selected)):
+        bad.append('test %s is not selected but was started %d times' % (n, c[n]))
+    for n in selected:
+        if c[n] > repeat or (c[n] != repeat and not cut_short):
+            bad.append('selected test %s has %d start records, expected %s%d (repeat=%d)'
+                       % (n, c[n], 'at most ' if cut_short else 'exactly ', repeat, repeat))
+    return bad
+
+
 # =============================================================== implementation runners
 def _imports():
     global mtest, asyncio, argparse, types, TestResult, TestProtocol, MesonException
